@@ -14,13 +14,22 @@ def parser_jobs(prop, tier, wd, tags):
     w = 10 if tier == 'quick' else 12
     defines = ['PB_DATA="%s"' % hdr, 'PB_W=%d' % w, 'MINISTL_STR_CAP=12', 'MINISTL_VEC_CAP=8', 'MINISTL_MAP_CAP=3']
     jobs = []
-    for e in ['harness_' + n for n in NTS] + ['harness_match', 'harness_expected_end']:
-        jobs.append(fw.Job('parse.' + e, H, e, tus=['Compiler/src/ast.cpp'], defines=defines, caps='caps_parse.hpp', unwind=w + 2, unwindset={'_ZL10select_rowii.0': info['rows'] + 1}, tags=tags, stubs=STUBS, native=False, extra=['--object-bits', '12'],
+    plan = []
+    for n in NTS:
+        for k in info['first'][n]: plan.append(('harness_' + n, k))
+        plan.append(('harness_' + n, None))
+    plan += [('harness_match', '*'), ('harness_expected_end', '*')]
+    for e, first in plan:
+        fk = [] if first == '*' else ['PB_FIRST_KIND=%d' % (parseb.TOKENS.index(first) if first else -1)]
+        nm = e.replace('harness_', '')
+        jobs.append(fw.Job('parse.%s.%s' % (nm, first if first not in (None, '*') else ('other' if first is None else 'any')), H, e, tus=['Compiler/src/ast.cpp'], defines=defines + fk, caps='caps_parse.hpp', unwind=w + 2,
+                           unwindset={'_ZL10select_rowii.0': info['rows'] + 1}, tags=tags, stubs=STUBS, native=False, extra=['--object-bits', '12'],
                            ub_pat=r'^(_Z\d|_ZN10ParseState|_ZN4Theo|_ZNSt|_ZNKSt|_ZSt)\S*\.(assertion|pointer_dereference|array_bounds)' if 'C02' in tags else None,
                            timeout=600 if tier == 'quick' else 1500,
-                           what='real %s of parse.cpp, every callee replaced by its contract stub, symbolic window of <= %d tokens at a symbolic cursor: SOUND / COMPLETE against the LL(1) row selected by the lookahead, SAFE (cursor, progress, nullness)' % (e.replace('harness_', ''), w),
+                           what='real %s of parse.cpp entered on %s, every callee replaced by its contract stub, symbolic window of <= %d tokens: SOUND / COMPLETE against the LL(1) row selected by the lookahead, SAFE (cursor, progress, nullness)' % (nm, ('token ' + first) if first not in (None, '*') else ('any token outside its FIRST set' if first is None else 'any token'), w),
                            bounds='token window <= %d tokens (the function under test reads nothing outside it); token streams of any length; unwind %d' % (w, w + 2),
-                           functions=['parse.cpp:' + e.replace('harness_', '').replace('expected_end', 'expected_end_or_semicolon').replace('match', 'ParseState::match')]))
+                           functions=['parse.cpp:' + nm.replace('expected_end', 'expected_end_or_semicolon').replace('match', 'ParseState::match')],
+                           build_key=('parse', tuple(fk))))
     return jobs, info
 
 
